@@ -1,5 +1,7 @@
 """C01 — soft/hard state machine.  See DESIGN.md §2 C01."""
+import glob
 import json
+import os
 import subprocess
 
 from vlib import core, runner
@@ -10,22 +12,38 @@ class C01(Check):
     prop = "C01"
     required_theorems = ["streak_characterisation", "event_spec", "model_trace_meets_spec",
                          "pending_invariants", "stale_result_ignored", "nondecreasing_never_stale",
-                         "host_projection", "soft_implies_last_hard_ok", "dropped_only_if_older"]
-    technique = "Lean 4 proof (invariant by induction + refinement to the streak counter) over a hand-written model; correspondence by exhaustive + random differential execution of Checkable::ProcessCheckResult"
-    level_text = ("Machine-checked theorems (Lean 4 kernel) that for every configuration with max_check_attempts >= 1, every start state and every "
-                  "finite result history the model's trace satisfies the executable specification of the property (streak characterisation, event rule, "
-                  "pending invariants, host projection, stale results); the model is tied to the code by running the real ProcessCheckResult on all "
-                  "result sequences of length 5 (7 thorough) x kind x max 1..4 x volatile x flapping plus random long histories and diffing every "
-                  "observation; the same specification predicate is evaluated on the implementation's own trace")
-    level_note = ("Trusted: Lean kernel (+ propext, Classical.choice, Quot.sound), the hand-written model's correspondence being sampled (exhaustive to length 5/7, "
-                  "random beyond), harness/driver. Not modelled: flapping, reachability, notifications, scheduling.")
+                         "host_projection", "host_projection_trace", "soft_implies_last_hard_ok", "dropped_only_if_older",
+                         "dropped_changes_nothing", "hard_state_bookkeeping", "run_eq_runCore", "streak_characterisation_run"]
+    technique = "Lean 4 proof (invariant by induction + refinement to the streak counter and to the reader's hard-state bookkeeping) over a hand-written model; correspondence by exhaustive + random differential execution of Checkable::ProcessCheckResult (directly, through ApiActions::ProcessCheckResult and through ExternalCommandProcessor)"
+    level_text = ("Machine-checked theorems (Lean 4 kernel) that for every configuration with max_check_attempts >= 1, every start state "
+                  "(never-checked, any state of the shape the machine produces - then held to the whole property at once -, any other state a state "
+                  "file may hold) and every finite result history with arbitrary timestamps the model's WHOLE trace (accepted and dropped results) "
+                  "satisfies the executable specification: universal invariants, streak characterisation, event rule (volatile exemption only while "
+                  "the object is soft after the result), last_hard_state = state of the result at the latest hard event and unchanged otherwise, "
+                  "previous_hard_state = hard state before it, last_state, API-visible states = Up/Down projection, vars_after, dropped results "
+                  "strictly older and without effect; host traces depend on the results only through Up/Down (trace-level theorem). The model is tied to "
+                  "the code by running the real ProcessCheckResult on all result sequences of length 5 (7 thorough) x kind x max 1..4 x volatile x "
+                  "flapping from the pending state, all sequences of length 3 (4) from every start state (state x type x attempt 1..3 x last/previous "
+                  "hard state), all sequences of length 4 (5) on objects whose parent (own host / Dependency, hard-only or soft-counting) goes down "
+                  "and up, plus random long histories with parent results, acknowledgements, downtimes, flag changes, equal/older/future timestamps, "
+                  "passive results through the API action and the external command, and diffing every observation; the same specification predicate is evaluated on the "
+                  "implementation's own trace")
+    level_note = ("Trusted: Lean kernel (+ propext, Classical.choice, Quot.sound), the hand-written model's correspondence being sampled (exhaustive to the "
+                  "stated lengths, random beyond), harness/driver. Environment (reachability, acknowledgement, downtime, flapping, enable_* flags) is driven "
+                  "for real and has no place in the model: the property gives it no influence. Not modelled: notifications, scheduling, last_soft_states_raw, "
+                  "vars_before, concurrent ProcessCheckResult calls, cluster entry point (event::CheckResult), runtime change of max_check_attempts.")
     trusted_base = [
-        "modelled, not verified: only the attempt/state-type/hard-change/event computation of Checkable::ProcessCheckResult; "
-        "flapping, reachability, notifications, next-check scheduling are outside the model (flapping is toggled by the harness to show it has no influence)",
+        "modelled, not verified: the attempt/state-type/hard-change/event computation of Checkable::ProcessCheckResult, last_hard_state_raw, the two-slot "
+        "last_hard_states_raw word / previous_hard_state, last_state_raw, vars_after, Host/Service::GetState/GetLastState/GetLastHardState, the stale-result filter; "
+        "flapping, reachability, acknowledgement, downtime, notifications, next-check scheduling are outside the model (the harness drives them to show they "
+        "have no influence)",
+        "start states other than the never-checked one are installed with the generated setters plus a last_check_result, as the state-file restore does; "
+        "the restore code itself is not run",
     ]
     assumptions = [
         "timestamps used by the harness are integers (exact in binary64)",
         "a fresh `new Host()/new Service()` activated as test/icinga-checkresult.cpp does is a never-checked checkable",
+        "start states have check_attempt >= 1 and a last_hard_states_raw word below 10000 (every word the code writes is)",
     ]
 
     def _run(self, harness_cmd, driver, save):
@@ -36,35 +54,14 @@ class C01(Check):
             raise core.TieBroken("driver:c01:run", "\n".join(lines[-20:]))
         return lines
 
-    def _fails(self, harness, driver, lines, want_prefix):
+    def _fails(self, harness, driver, lines, want_prefix, want_sub=""):
         f = self.work("shrink.ops")
         with open(f, "w") as fh:
             fh.write("\n".join(runner.strip_obs(l) for l in lines) + "\n")
         out = self._run([harness, "ops", f], driver, self.work("shrink.out"))
-        return any(l.startswith(want_prefix) for l in out)
+        return any(l.startswith(want_prefix) and want_sub in l for l in out)
 
-    def correspondence(self, tier, seed, harness, driver):
-        res = runner.Result()
-        save = self.work("gen.out")
-        lines = self._run([harness, "gen", "--seed", str(seed), "--tier", tier], driver, save)
-        stats = {}
-        for l in lines:
-            if l.startswith("STATS"):
-                stats = {k: int(v) for k, v in core.parse_kv(l).items()}
-        if not stats:
-            raise core.TieBroken("driver:c01:no-stats", "\n".join(lines[-20:]))
-        res.stats = stats
-        res.evaluations = stats["steps"]
-        res.distinct_nontrivial = stats["nontrivial"]
-        res.traces_validated = stats["cases"]
-        res.exhaustive = True
-        n = 7 if tier == "thorough" else 5
-        res.rule = (f"exhaustive: every sequence of {n} results over OK/WARNING/CRITICAL/UNKNOWN from the pending state x "
-                    "host/service x max_check_attempts 1..4 x volatile x enable_flapping (distinct by construction); plus seeded "
-                    "random histories (max 1..12, length up to 200/1000, equal/older/future timestamps, active/passive). "
-                    "evaluations = ProcessCheckResult calls; a case counts as non-trivial when it reached a hard problem state "
-                    "(counted by the Lean driver)")
-        res.samples = runner.extract_case(save, 1234) + ["..."] + runner.extract_case(save, stats["cases"])[:12]
+    def _examine(self, res, lines, save, harness, driver):
         bad = [l for l in lines if l.startswith("BADLINE")]
         if bad:
             res.corr_failures.append(runner.Finding("corr", "protocol", bad[:5]))
@@ -77,13 +74,20 @@ class C01(Check):
                 seen.add(kv["clause"])
                 case = runner.extract_case(save, int(kv["case"]))
                 hdr, ops = case[:1], case[1:]
-                ops = runner.ddmin(hdr, ops, lambda ls: self._fails(harness, driver, ls, "SPECFAIL"))
-                self._fails(harness, driver, hdr + ops, "SPECFAIL")
-                shown = open(self.work("shrink.out")).read().splitlines()
+                want = "clause=" + kv["clause"]
+                fails = lambda ls: self._fails(harness, driver, ls, "SPECFAIL", want)
+                if fails(hdr + ops):
+                    ops = runner.ddmin(hdr, ops, fails)
+                    fails(hdr + ops)
+                    shown = open(self.work("shrink.out")).read().splitlines()
+                else:
+                    shown = case
                 res.spec_failures.append(runner.Finding("spec", "spec:C01:" + kv["clause"], shown, {"driver": l}))
         seen = set()
+        tried = 0
         for l in lines:
-            if l.startswith("MISMATCH") and len(seen) < 3:
+            if l.startswith("MISMATCH") and len(seen) < 3 and tried < 8:
+                tried += 1
                 kv = core.parse_kv(l)
                 case = runner.extract_case(save, int(kv["case"]))
                 hdr, ops = case[:1], case[1:]
@@ -95,11 +99,56 @@ class C01(Check):
                     continue
                 seen.add(key)
                 res.corr_failures.append(runner.Finding("corr", "step-observation", shown, {"driver": l}))
+
+    def correspondence(self, tier, seed, harness, driver):
+        res = runner.Result()
+        corpus = {}
+        # corpus first: hand-written seeds and the minimised witnesses of past breaking changes
+        for cf in sorted(glob.glob(os.path.join(core.ROOT, "corpus", "C01", "*.ops"))):
+            save = self.work("corpus_" + os.path.basename(cf) + ".out")
+            lines = self._run([harness, "ops", cf], driver, save)
+            self._examine(res, lines, save, harness, driver)
+            for l in lines:
+                if l.startswith("STATS"):
+                    for k, v in core.parse_kv(l).items():
+                        if v.isdigit():
+                            corpus["corpus_" + k] = corpus.get("corpus_" + k, 0) + int(v)
+        save = self.work("gen.out")
+        lines = self._run([harness, "gen", "--seed", str(seed), "--tier", tier], driver, save)
+        stats = {}
+        for l in lines:
+            if l.startswith("STATS"):
+                stats = {k: int(v) for k, v in core.parse_kv(l).items()}
+        if not stats:
+            raise core.TieBroken("driver:c01:no-stats", "\n".join(lines[-20:]))
+        stats.update(corpus)
+        res.stats = stats
+        res.evaluations = stats["steps"]
+        res.distinct_nontrivial = stats["nontrivial"]
+        res.traces_validated = stats["cases"]
+        res.exhaustive = True
+        n = 7 if tier == "thorough" else 5
+        res.rule = (f"exhaustive: every sequence of {n} results over OK/WARNING/CRITICAL/UNKNOWN from the pending state x "
+                    "host/service x max_check_attempts 1..4 x volatile x enable_flapping; every sequence of "
+                    f"{n - 2} results from every start state (4 states x soft/hard x attempt 1..3 x last hard state x previous hard state) x kind x "
+                    f"max 1..3 x volatile; every sequence of {n - 1} results x kind x max 1..3 x volatile on an object whose parent (own host / "
+                    "Dependency; hard-only or soft-counting) goes down before the first or second result and optionally up again "
+                    "(all distinct by construction); plus seeded random histories (max 1..12, length up to 200/1000, equal/older/future "
+                    "timestamps, active/passive/API action/external command, restored start states, parent results, acknowledgements, downtimes, flag changes). "
+                    "evaluations = ProcessCheckResult calls; a case counts as non-trivial when it reached a hard problem state "
+                    "(counted by the Lean driver)")
+        res.samples = runner.extract_case(save, 1234) + ["..."] + runner.extract_case(save, stats["cases"])[:12]
+        self._examine(res, lines, save, harness, driver)
+        # the generator must really have reached the input classes the level text names (else a silent run proves little)
+        if not res.spec_failures and not res.corr_failures:
+            for k in ("unreachable_soft", "acked", "in_downtime", "via_api", "via_extcmd", "starts_known", "prev_hard_checked", "dropped"):
+                if stats.get(k, 0) == 0:
+                    raise core.TieBroken("driver:c01:coverage", f"generator never reached {k}: {stats}")
         return res
 
     def replay(self, path, harness, driver):
         data = json.load(open(path))
-        lines = [l for l in data.get("case", []) if l[:2] in ("C ", "R ")]
+        lines = [l for l in data.get("case", []) if l[:2] in ("C ", "R ", "S ", "P ", "A ", "D ", "F ")]
         f = self.work("replay.ops")
         with open(f, "w") as fh:
             fh.write("\n".join(runner.strip_obs(l) for l in lines) + "\n")
@@ -115,6 +164,10 @@ NEGATIVE_CONTROLS = [
     "nc1_state_machine_refactor (corpus/C01): ProcessCheckResult's soft/hard branch restructured (problem branch first, merged "
     "'first soft'/'next retry' cases, `max <= attempt`), attempt/stateChange/hardChange as single const expressions, recovery as an "
     "assignment, reordered independent statements, log line reworded and written before OnStateChange",
+    "nc2_hard_state_bookkeeping_refactor (corpus/C01): the two-slot hard-state history computed through locals (new*100 + former current, "
+    "previous slot by subtraction instead of % 100), statements of the `hardChange || is_volatile` block reordered and moved behind the soft-state "
+    "history, stale-result comparison with swapped operands, Host::GetLastHardState() as an explicit OK/WARNING test, the API action's host "
+    "exit_status mapping as early return + conditional expression",
     "nc2_notification_guard_spellings (corpus/C02): send/suppress decision as one expression with De Morgan'd guards, merged "
     "`!is_flapping && send && !IsPaused()`, pending test `!= 0`, flapping cancel-out as two bit tests, remembered state via a local",
     "nc3_fire_suppressed_refactor (corpus/C02): FireSuppressedNotifications with the early returns merged in another order, the two "
